@@ -120,8 +120,10 @@ func (comp) Extra(prop string, tier string, seed int64, scratch string) *core.Ex
 		res.Distinct++
 		res.Counts[fmt.Sprintf("rounds_kind_%d", kind)]++
 	}
+	reusedValueBuffer(res, tier, seed, scratch)
 	res.Rule = "validation beyond the property's (sequential) quantifier: rounds of 2-6 goroutines writing their own keys (Put/Remove) through one persister with MaxBatchSize in {1,2,3,5}, so that " +
-		"size-triggered flushes overlap; then Close, a fresh persister on the same path; Get/Has of every key and RangeKeys must give exactly the last acknowledged write of every key"
+		"size-triggered flushes overlap; then Close, a fresh persister on the same path; Get/Has of every key and RangeKeys must give exactly the last acknowledged write of every key. " +
+		"Plus sequential rounds in which the caller builds every value in ONE buffer that it overwrites after each Put (keys staged several times per batch, no read before Close): after Close and reopen every key holds the bytes of its last acknowledged Put"
 	return res
 }
 
@@ -135,4 +137,79 @@ func openForExtra(kind int, path string, max int) (types.Persister, error) {
 		return nil, err
 	}
 	return sharded.NewShardedPersister(path, &creator{kind: kind - 3, delay: noTimerDelay, max: max}, sp)
+}
+
+
+// reusedValueBuffer: a caller that serialises every value into one scratch buffer. Put must have taken what it needs by the time it
+// returns (goleveldb's batch copies the value); what is durable after Close must be the bytes the buffer held DURING the acknowledged
+// call, not what it holds at flush time. Reads of still-pending data are deliberately not made here: the library's pending-batch
+// cache keeps the caller's slice by reference (C08's domain excludes callers that mutate a value they passed), but C09's clause about
+// Close and reopen does not depend on that.
+func reusedValueBuffer(res *core.ExtraResult, tier string, seed int64, scratch string) {
+	rounds := 15
+	if tier == "thorough" {
+		rounds = 300
+	}
+	rng := rand.New(rand.NewSource(seed*104729 + 5))
+	for r := 0; r < rounds && len(res.Fails) == 0; r++ {
+		kind := []int{0, 1, 4}[r%3]
+		max := []int{2, 3, 5, 8, 50}[rng.Intn(5)]
+		dir := filepath.Join(scratch, fmt.Sprintf("c09v-%d", r))
+		_ = os.RemoveAll(dir)
+		p, err := openForExtra(kind, dir, max)
+		if err != nil {
+			res.Fails = append(res.Fails, core.Fail{Property: "C09", Step: -1, Msg: fmt.Sprintf("reused-buffer round %d: open: %v", r, err)})
+			return
+		}
+		buf := make([]byte, 64)
+		want := map[string][]byte{}
+		nops := 20 + rng.Intn(60)
+		for i := 0; i < nops; i++ {
+			k := fmt.Sprintf("account-%02d", rng.Intn(6))
+			if rng.Intn(6) == 0 {
+				if p.Remove([]byte(k)) == nil {
+					delete(want, k)
+				}
+				continue
+			}
+			n := 1 + rng.Intn(40)
+			for j := 0; j < n; j++ {
+				buf[j] = byte(rng.Intn(256))
+			}
+			if p.Put([]byte(k), buf[:n]) == nil {
+				want[k] = append([]byte{}, buf[:n]...)
+			}
+			for j := range buf {
+				buf[j] = 0xDB // the caller reuses its buffer
+			}
+		}
+		res.Counts["reused_buffer_writes"] += nops
+		if p.Close() != nil {
+			_ = os.RemoveAll(dir)
+			continue
+		}
+		q, err := openForExtra(kind, dir, max)
+		if err != nil {
+			res.Fails = append(res.Fails, core.Fail{Property: "C09", Step: -1, Msg: fmt.Sprintf("reused-buffer round %d: reopen: %v", r, err)})
+			return
+		}
+		descr := fmt.Sprintf("reused-buffer round %d (%s, MaxBatchSize=%d, %d sequential writes on 6 keys, every value built in one buffer that is overwritten after each Put, then Close and reopen)",
+			r, []string{"leveldb.DB", "leveldb.SerialDB", "", "", "sharded over SerialDB"}[kind], max, nops)
+		for i := 0; i < 6; i++ {
+			k := fmt.Sprintf("account-%02d", i)
+			res.Evaluations++
+			v, gerr := q.Get([]byte(k))
+			wv, present := want[k]
+			if present && (gerr != nil || !bytes.Equal(v, wv)) {
+				res.Fails = append(res.Fails, core.Fail{Property: "C09", Step: -1, Msg: fmt.Sprintf("%s: key %s holds %x (err %v), its last acknowledged Put carried %x", descr, k, v, gerr, wv)})
+				res.Replays = append(res.Replays, fmt.Sprintf("harness extra -component persist -prop C09 -tier %s -seed %d   # %s", tier, seed, descr))
+			} else if !present && gerr == nil {
+				res.Fails = append(res.Fails, core.Fail{Property: "C09", Step: -1, Msg: fmt.Sprintf("%s: key %s resurrected with %x", descr, k, v)})
+				res.Replays = append(res.Replays, fmt.Sprintf("harness extra -component persist -prop C09 -tier %s -seed %d   # %s", tier, seed, descr))
+			}
+		}
+		_ = q.Close()
+		_ = os.RemoveAll(dir)
+		res.Counts["reused_buffer_rounds"]++
+	}
 }
